@@ -22,7 +22,7 @@
      new a rejection caused by a failing substitution in a directory value or in a
          test's env option prints no file name                C08_reject_has_diagnostic_* *)
 From Robsd Require Import Conf.ConfDefs Conf.ConfSpec Conf.DocSpec Conf.ConfTie Conf.ConfSound Conf.ConfComplete
-  Conf.ConfDiag Conf.ConfReject Conf.ConfRdomain Conf.ConfValue Conf.ConfInst Conf.ConfProofs.
+  Conf.ConfDiag Conf.ConfReject Conf.ConfRdomain Conf.ConfValue Conf.ConfInst Conf.ConfPrim Conf.ConfTrack Conf.ConfProofs.
 From RobsdGen Require Import Gen_Conf.
 From Coq Require Import String.
 Local Open Scope N_scope.
@@ -141,6 +141,31 @@ Theorem C08_value_exact : forall E T,
                          exists k, doc_unit_seconds u = Some k /\ v = VInt (k * n)%Z).
 Proof. exact value_exact. Qed.
 Print Assumptions C08_value_exact.
+
+(* for an accepted configuration (entries [es], dictionary [c]): a plain keyword interpolates to the value of
+   its first defining entry (later entries cannot change it), whatever other entries - regress productions
+   with their options, canvas steps, directories whose substitution defines computed defaults - come before,
+   between or after *)
+Theorem C08_value_of_accepted : forall E T kw es c,
+  plain_free T kw = true -> run_entries E T (cfg_init T) es = Some c ->
+  find_var (c_vars c) kw = kw_value E T kw es
+  /\ (forall v, kw_value E T kw es = Some v -> v <> VInvalid -> lookup1 E T false c kw = (c, Some (render v))).
+Proof. exact value_of_accepted_plain. Qed.
+Print Assumptions C08_value_of_accepted.
+
+Theorem C08_value_of_accepted_covers : forall m,
+  forallb (fun g => negb (has_fn g && plain (gr_fn g)) || plain_free (tables_of m) (gr_kw g) || prefixb regress_prefix (gr_kw g) || beq (gr_kw g) kw_robsddir)
+          (t_grammar (tables_of m)) = true.
+Proof. exact plain_keywords_covered. Qed.
+Print Assumptions C08_value_of_accepted_covers.
+
+(* an entry writes only the names of [value_targets]; every other name that is not answered by a computed
+   default keeps the value it had (per-test options only on their test) *)
+Theorem C08_entry_writes_only_its_names : forall E T n0, ~ fun_name T n0 -> forall c g e c1,
+  beq (en_kw e) n0 = false -> not_among n0 (value_targets (gr_fn g) (en_val e)) ->
+  apply_entry E T c g e = Some c1 -> find_var (c_vars c1) n0 = find_var (c_vars c) n0.
+Proof. exact untouched_apply_entry. Qed.
+Print Assumptions C08_entry_writes_only_its_names.
 
 (* the documented defaults, computed by the lookup on the regenerated tables *)
 Theorem C08_documented_defaults :
